@@ -565,4 +565,3 @@ func (s *shard) run(r *ev.Run, w *world, deadline time.Time) {
 		r.NotExhaustive(fmt.Sprintf("%s: history search stopped by the internal deadline after depth %d of %d", tag, b.Depth, s.depth))
 	}
 }
-
